@@ -136,8 +136,12 @@ func (s *static) genLeaseFile(t *simrt.Tape, v6 bool, bad bool) (string, map[str
 			case 4:
 				emit(spellMAC(t, hw) + " not-an-ip")
 			default:
-				// wrong address family
-				emit(spellMAC(t, hw) + " " + spellIP(t, s.ipFor(t, !v6), !v6))
+				// wrong address family (an IPv4 address spelled as IPv4-mapped IPv6 is still IPv4), or a zoned literal
+				other := spellIP(t, s.ipFor(t, !v6), !v6)
+				if v6 {
+					other = []string{other, "::ffff:192.0.2.9", "::ffff:c000:209", "fe80::1%eth0", other}[t.Pick(5)]
+				}
+				emit(spellMAC(t, hw) + " " + other)
 			}
 			continue
 		}
@@ -277,6 +281,7 @@ func (s *static) Plan(w *World) {
 			w.Discard = "harness: lease file generator and oracle parser disagree"
 			fmt.Fprintf(os_stderr(), "HARNESS-BUG lease generator/parser disagree on %q: %v vs %v\n", text, pm, m)
 		}
+		w.Sim.FSRegisterDir(w.Dir)
 		w.Sim.FSRegisterPath(s.path[p])
 		w.Sim.FSCreate(s.path[p], []byte(text))
 		s.final[p] = text
@@ -420,6 +425,13 @@ func (s *static) edit(w *World, last bool) {
 	path := s.path[p]
 	bad := t.Draw(4) == 0
 	text, _ := s.genLeaseFile(t, p == 1, bad)
+	// faults land inside operations: requests are in flight while the update (and the reload it triggers) happens
+	for i, k := 0, int(t.Draw(4)); i < k; i++ {
+		w.Sim.After(int64(t.Draw(40))*1e6, func() { s.request(w) })
+	}
+	for i, k := 0, int(t.Draw(3)); i < k; i++ {
+		s.request(w)
+	}
 	style := t.Draw(6)
 	// known-finding trigger: styles that replace the watched inode lose the watch. Without the switch only an
 	// atomic rename-over is generated, and only as the last update (its own events still arrive).
@@ -479,7 +491,7 @@ func (s *static) edit(w *World, last bool) {
 		w.Sim.FSUnlink(path)
 		mark()
 		w.Sim.After(int64(t.Draw(20))*1e6, func() {
-			w.Sim.FSCreate(path, []byte(text))
+			w.Sim.FSCreateEvent(path, []byte(text))
 			mark()
 		})
 		s.watchKilled[p] = true
@@ -489,7 +501,7 @@ func (s *static) edit(w *World, last bool) {
 		w.Sim.FSRenameAway(path, path+".old")
 		mark()
 		w.Sim.After(int64(t.Draw(20))*1e6, func() {
-			w.Sim.FSCreate(path, []byte(text))
+			w.Sim.FSCreateEvent(path, []byte(text))
 			mark()
 		})
 		s.watchKilled[p] = true
